@@ -298,4 +298,5 @@ LATER_RULES = {
     "C06": "R06d prune_options drops only on a failed raw and type test; R06e next_match candidate order; R06f cache keys fresh per matcher; R06g a plain GREEDY sequence is never a prunable option.",
     "C13": "R13c nested re-parse validation runs under the file's node budget.",
     "C17": "R17d CP01 and CP05 own disjoint tokens.",
+    "C26": "R26c also: a mask on the carried-over mode keeps all twelve mode bits.",
 }
